@@ -99,7 +99,7 @@ Definition set_entry_ok_stmt : Prop := keq_ok ->
     WF s' /\ eview s' = <[pos := e']> (eview s).
 
 (** appending a fresh entry to the three collections *)
-Definition push_entry_ok_stmt : Prop :=
+Definition push_entry_ok_stmt : Prop := keq_ok ->
   forall s e, WF s -> get_index_of keq hash (smap s) e.1 = None ->
     WF (push_entry s e) /\ eview (push_entry s e) = eview s ++ [e].
 
